@@ -255,3 +255,28 @@ Proof.
   eexists. split; [repeat constructor; cbn; lia|]. split; [repeat constructor; cbn; lia|].
   split; vm_compute; reflexivity.
 Qed.
+
+(* ---------------------------------------------------------------- mixed header lengths at the limit *)
+(* the offset-0 fragment carries 40 bytes of options (IHL 15), the others a 20-byte header; every
+   fragment passes the checks on its own; the long-header fragment arrives last, so its header is
+   the result's.  65515 payload bytes would need Length 65575: refused.  65475 bytes: Length 65535. *)
+Definition h15 := {| h_src := 167772161; h_dst := 167772417; h_id := 1; h_ihl := 15; h_hdr := 64 :: 17 :: 0 :: repeat 1 40 |}.
+Definition mixed_ops (n : Z) : list op4 :=
+  [OFrag (mkfrag h5 1 true (repeat 2 (Z.to_nat (65464 - 8)))) 1;
+   OFrag (mkfrag h5 8183 false (repeat 3 (Z.to_nat (n - 65464)))) 2;
+   OFrag (mkfrag h15 0 true (repeat 1 8)) 3].
+
+Lemma mixed_ihl_oversize :
+  Forall (fun o => match o with OFrag f _ => security_ok fixedv f = true | _ => True end) (mixed_ops 65515) /\
+  snd (run4 fixedv [] (mixed_ops 65515)) = [Res RNone; Res RNone; Res RErr] /\
+  match nth_error (snd (run4 fixedv [] (mixed_ops 65475))) 2 with
+  | Some (Res (RDg d)) => f_ihl d = 15 /\ f_len d = 65535 /\ plen d = 65475
+  | _ => False
+  end.
+Proof.
+  split.
+  { unfold mixed_ops. constructor; [vm_compute; reflexivity|]. constructor; [vm_compute; reflexivity|].
+    constructor; [vm_compute; reflexivity|]. constructor. }
+  split; [vm_compute; reflexivity|].
+  vm_compute. repeat split; reflexivity.
+Qed.
